@@ -71,7 +71,7 @@ def run(chk, gate, status):
     for i in range(n):
         rng = random.Random(chk.seed * 100003 + 80000 + i)
         cases.append((recipes.RecipeGen(rng, rng.randint(3, hi), allow_d13=(i % 8 == 7), allow_rename=True), []))
-    cases = [(recipes.Replayed(p), []) for p in recipes.twin_lot_recipes()] + cases
+    cases = [(recipes.Replayed(p), []) for p in recipes.twin_lot_recipes() + recipes.directed_recipes()] + cases
     chk.assumptions += ["dilute(..., new_name=...) is generated; object names are not compared, only the keys of the returned dictionary and the contents",
                         "fill_to on a strict sub-region of a plate is generated in 1/8 of the programs and reported as known finding D13 when it reproduces"]
     cov = recipes.check(chk, 'C08', cases, oracle, RULE, nontrivial)
